@@ -53,7 +53,7 @@ Definition w_vcred (c : vcred) : list Z :=
   ++ wo (match v_nontransf c with Some b => Some (zb b) | None => None end) ++ w_status (v_status c).
 Definition verr_code (e : verr) : Z :=
   match e with VNonce => 1 | VKidMissing => 2 | VKidParse => 3 | VDocMismatch => 4 | VMethodLookup => 5 | VSignature => 6 | VClaims => 7 | VSignerUrl => 8
-             | VIdentifierMismatch => 9 | VIssuance => 10 | VExpiry => 11 | VStructure => 12 | VSubjectHolder => 13 | VStatusInvalid => 14 | VServiceLookup => 15 | VRevoked => 16 end.
+             | VIdentifierMismatch => 9 | VIssuance => 10 | VExpiry => 11 | VStructure => 12 | VSubjectHolder => 13 | VStatusInvalid => 14 | VServiceLookup => 15 | VRevoked => 16 | VSdDecode => 17 end.
 
 Definition c02_run (input : list Z) : list Z :=
   match (k <- rz ;; t <- rtoken ;; is <- rlist rissuer ;; o <- ropts ;; ret (k, t, is, o)) input with
